@@ -7,10 +7,12 @@ package main
 // call carried (wtxmgr.DependencySort is free to pick among valid orders).
 
 import (
+	"errors"
 	"fmt"
 	"math/rand"
 	"strings"
 	"sync"
+	"sync/atomic"
 	"time"
 
 	"github.com/btcsuite/btcd/chainhash/v2"
@@ -31,6 +33,7 @@ type sim struct {
 	lastSent int
 	busy     bool // the handler is inside cfg.Broadcast for a request
 	busyTx   int
+	subGone  bool // the block subscription was cancelled from outside
 }
 
 func newSim() *sim { return &sim{pending: map[int]bool{}} }
@@ -82,6 +85,8 @@ func (s *sim) apply(op *Op) {
 		}
 	case "stop":
 		s.stopped = true
+	case "subcancel":
+		s.subGone = true
 	case "bcstart":
 		if !s.stopped && !s.busy {
 			s.busy, s.busyTx = true, op.Tx
@@ -120,6 +125,7 @@ type runner struct {
 	hmu      sync.Mutex
 	hTx      *wire.MsgTx
 	hErr     error
+	subGone  int32      // the block subscription was cancelled (SubscribeBlocks fails)
 	hHold    bool       // the handler's next call is held open
 	hposts   chan post  // ... and announced here
 	hpost    *post      // the held call
@@ -235,6 +241,9 @@ func newRunner(h *History, seed int64, settle time.Duration) *runner {
 			}
 		},
 		SubscribeBlocks: func() (*blockntfns.Subscription, error) {
+			if atomic.LoadInt32(&ru.subGone) != 0 {
+				return nil, errors.New("subscription manager stopped")
+			}
 			return &blockntfns.Subscription{Notifications: ru.ntfn, Cancel: func() {}}, nil
 		},
 		RebroadcastInterval: interval,
@@ -384,7 +393,18 @@ func (ru *runner) exec(op Op) {
 				ru.fail("MarkAsConfirmed did not return within 3s", "markconfirmed-blocked")
 			}
 		}
+	case "subcancel":
+		// The environment cancels the block subscription while the
+		// Broadcaster keeps running (e.g. the subscription manager was
+		// stopped first): the channel handed out is closed and a new
+		// subscription cannot be had.  Nothing observable may change.
+		if atomic.CompareAndSwapInt32(&ru.subGone, 0, 1) {
+			close(ru.ntfn)
+		}
 	case "block":
+		if atomic.LoadInt32(&ru.subGone) != 0 {
+			break // no way to deliver a block any more
+		}
 		d := long
 		if ru.stopped {
 			d = 15 * time.Millisecond
@@ -666,6 +686,13 @@ func genB(r *rand.Rand, h *History, ru *runner, nops int) {
 		}
 		return 1 + r.Intn(ntx)
 	}
+	// in some histories the block subscription is cancelled from outside at
+	// some point before Stop; no block can be delivered afterwards and the
+	// history ends soon (the unchanged handler spins on the closed channel)
+	cancelAt := -1
+	if r.Intn(100) < 12 {
+		cancelAt = r.Intn(nops)
+	}
 	stopAt := -1
 	if r.Intn(100) < 60 {
 		stopAt = r.Intn(nops + 1)
@@ -675,6 +702,13 @@ func genB(r *rand.Rand, h *History, ru *runner, nops int) {
 		push(Op{Kind: "bc", Tx: 1 + r.Intn(ntx), Out: pickOut(r, false)})
 	}
 	for len(h.Ops) < nops {
+		if cancelAt >= 0 && len(h.Ops) >= cancelAt && !s.subGone && !s.stopped {
+			push(Op{Kind: "subcancel"})
+			if n := len(h.Ops) + 3 + r.Intn(6); n < nops {
+				nops = n
+			}
+			continue
+		}
 		if stopAt >= 0 && len(h.Ops) >= stopAt && !s.stopped {
 			// Stop is issued with the worker idle or inside a call (whether a
 			// worker between two calls sees quit first is a race)
@@ -720,7 +754,7 @@ func genB(r *rand.Rand, h *History, ru *runner, nops int) {
 			case x < 96:
 				push(Op{Kind: "stop"})
 			default:
-				if s.w == 0 {
+				if s.w == 0 && !s.subGone {
 					push(Op{Kind: "block"})
 				}
 			}
@@ -737,13 +771,17 @@ func genB(r *rand.Rand, h *History, ru *runner, nops int) {
 			push(Op{Kind: "bcstart", Tx: pickTx(false)})
 		case x < 74:
 			push(Op{Kind: "conf", Tx: pickTx(!malformed)})
-		case x < 94:
+		case x < 94 && !s.subGone:
 			push(Op{Kind: "block"})
+		case x < 94:
+			push(Op{Kind: "conf", Tx: pickTx(true)})
 		default:
 			if malformed && (s.w == 0 || s.w == 2) {
 				push(Op{Kind: "wcall"}) // probe: no worker call may appear
-			} else {
+			} else if !s.subGone {
 				push(Op{Kind: "block"})
+			} else {
+				push(Op{Kind: "bc", Tx: pickTx(false), Out: pickOut(r, false)})
 			}
 		}
 	}
@@ -805,11 +843,14 @@ func genTick(r *rand.Rand, h *History, ru *runner) {
 func ops(spec string) []Op {
 	// compact notation: b3a = bc tx3 accept (outcomes a,m,i,f,u,c,o); c2 = conf 2;
 	// B block; C wcall(expected); P probe; r<a..> wret; H whand; D wdone; S stop;
-	// T wait for tick; K<tx> Broadcast request whose callback is held; k<a..> its return
+	// T wait for tick; K<tx> Broadcast request whose callback is held; k<a..> its return;
+	// X the block subscription is cancelled from outside
 	outs := map[byte]string{'a': "accept", 'm': "mempool", 'i': "invalid", 'f': "fee", 'u': "unknown", 'c': "confirmed", 'o': "other"}
 	var res []Op
 	for _, t := range strings.Fields(spec) {
 		switch t[0] {
+		case 'X':
+			res = append(res, Op{Kind: "subcancel"})
 		case 'K':
 			res = append(res, Op{Kind: "bcstart", Tx: int(t[1] - '0')})
 		case 'k':
@@ -893,6 +934,13 @@ func corpusB() []History {
 		// else reaches the handler meanwhile, the worker goes on
 		{Family: "b", NTx: 3, Parents: [][]int{nil, {1}, {2}}, Ops: ops("b1a K2 km B C ra C ra D K3 ki K3 ka B C ra C ra C ra D")},
 		{Family: "b", NTx: 2, Parents: [][]int{nil, {1}}, Ops: ops("b1a b2a B K1 C ra C rc km H D B C ra D")},
+		// the block subscription is cancelled from outside while the
+		// Broadcaster runs: MarkAsConfirmed / Broadcast are still served,
+		// a running rebroadcast goes on, ticks still rebroadcast, Stop returns
+		{Family: "b", NTx: 2, Parents: [][]int{nil, {1}}, Ops: ops("b1a b2a B C ra C ra D X c1 b2a c2 b1m S c1")},
+		{Family: "b", NTx: 2, Parents: [][]int{nil, {1}}, Ops: ops("b1a X K2 km c1 b1i S")},
+		{Family: "b", NTx: 2, Parents: [][]int{nil, {1}}, Ops: ops("b1a b2a B C X ra C ra D c2 S")},
+		{Family: "b", NTx: 2, Parents: [][]int{nil, {1}}, IntervalMs: 40, Ops: ops("b1a b2a X T C ra C ra D c1 S")},
 		// reply wordings end to end: "already have transaction <txid>" is a
 		// success and keeps being rebroadcast; "transaction already exists
 		// in blockchain" during a rebroadcast ends it (each class several times,
